@@ -1,4 +1,4 @@
-CONSTANTS MaxPts = 9 MaxCount = 3 MaxArrivals = 14 Init0 = 1 SimDepth = 14
+CONSTANTS MaxPts = 9 MaxCount = 3 MaxArrivals = 14 Init0 = 1 MinCount = 0 SimDepth = 14
 INIT Init
 NEXT Next
 CONSTRAINT Dump
